@@ -8,7 +8,7 @@ export GOFLAGS=-mod=mod GOPROXY=off GOSUMDB=off GOTOOLCHAIN=local
 ids=("$@"); [ ${#ids[@]} -eq 0 ] && ids=($(ls seeded))
 rc=0
 # one worktree path for all changes: the Go build cache then only recompiles what a patch touches
-WT=/tmp/reeval-wt
+WT=${REEVAL_WT:-/tmp/reeval-wt}
 git -C /repo worktree remove --force $WT 2>/dev/null
 git -C /repo worktree add -q $WT HEAD || { echo "cannot create worktree"; exit 2; }
 trap 'git -C /repo worktree remove --force $WT' EXIT
@@ -16,12 +16,12 @@ for id in "${ids[@]}"; do
   git -C $WT checkout -q -- . && git -C $WT clean -qfd
   if ! git -C $WT apply $V/seeded/$id/patch.diff; then echo "$id: PATCH-DOES-NOT-APPLY"; rc=2; continue; fi
   for c in $(python3 -c "import json;print(' '.join(json.load(open('$V/seeded/$id/meta.json'))['caught_by']))"); do
-    out=$(VERIF_REPO=$WT VERIF_EVIDENCE_DIR=/tmp/reeval-evidence ./vcheck $c 2>&1)
+    out=$(VERIF_REPO=$WT VERIF_EVIDENCE_DIR=${WT}-evidence ./vcheck $c 2>&1)
     again=""
     if ! echo "$out" | grep -q "^VIOLATION property=$c " && echo "$out" | grep -q "HARNESS-TROUBLE.*did not \(recur\|reproduce\)"; then
       # some seeded changes make refinery itself nondeterministic (a data race, memory shared between
       # goroutines): a violation seen once need not show again on the same plan. One more attempt.
-      out=$(VERIF_REPO=$WT VERIF_EVIDENCE_DIR=/tmp/reeval-evidence ./vcheck $c 2>&1); again=" (second attempt; the first found a violation that did not recur on its plan)"
+      out=$(VERIF_REPO=$WT VERIF_EVIDENCE_DIR=${WT}-evidence ./vcheck $c 2>&1); again=" (second attempt; the first found a violation that did not recur on its plan)"
     fi
     if echo "$out" | grep -q "^VIOLATION property=$c "; then
       echo "$id $c CAUGHT$again $(echo "$out" | grep -m1 '^violation:' | cut -c1-140)"
@@ -30,5 +30,5 @@ for id in "${ids[@]}"; do
     fi
   done
 done
-rm -rf /tmp/reeval-evidence
+rm -rf ${WT}-evidence
 exit $rc
